@@ -206,8 +206,15 @@ class FakeConnection:
         network.connections.append((netloc, ssl_context))
 
     def connect(self):
-        if self.netloc not in self.network.servers:
+        server = self.network.servers.get(self.netloc)
+        if server is None:
             raise ConnectionRefusedError(f'loop-back: nothing listens on {self.netloc}')
+        # what a real TLS / plaintext mismatch looks like to the client
+        if self.ssl_context is not None and server.scheme != 'https':
+            import ssl
+            raise ssl.SSLError(1, '[SSL: WRONG_VERSION_NUMBER] loop-back: TLS client hello sent to a plaintext server')
+        if self.ssl_context is None and server.scheme == 'https':
+            raise ConnectionResetError('loop-back: plaintext request sent to a TLS server')
         self.sock = _FakeSock()
 
     def close(self):
@@ -255,10 +262,13 @@ class _FakeAioResponse:
 
 class _FakeAioSession:
     def __init__(self, network, netloc, ssl_context):
-        self.network, self.netloc = network, netloc
+        self.network, self.netloc, self.ssl_context = network, netloc, ssl_context
         network.connections.append((netloc, ssl_context))
 
     def post(self, path, data=None, headers=None):
+        server = self.network.servers.get(self.netloc)
+        if server is not None and (self.ssl_context is not None) != (server.scheme == 'https'):
+            raise ConnectionResetError('loop-back: TLS / plaintext mismatch')
         entry = self.network.transmit(self.netloc, 'POST', path, headers or {}, data or b'')
         return _FakeAioResponse(entry)
 
